@@ -1039,8 +1039,21 @@ func genCase(rng *vh.RNG) (c Case, malformed bool) {
 
 func ip(i int) *int { return &i }
 
+// wideTopic: one topic with `n` subscriptions (two actors, many subscriptions each - a subscription is one delivery per
+// publication), then bursts of one publisher: every recipient must see that publisher's messages in publication order, however
+// many subscriptions the fan-out of one publication has to serve
+func wideTopic(n int) Case {
+	c := Case{Ops: []Op{{K: "SP", A: 0}, {K: "SP", A: 1}, {K: "SP", A: 2}}}
+	for i := 0; i < n; i++ {
+		c.Ops = append(c.Ops, Op{K: "S", A: i % 2, T: 0})
+	}
+	c.Ops = append(c.Ops, Op{K: "P", A: 2, T: 0, V: 1, N: 3}, Op{K: "U", A: 0, V: 3}, Op{K: "P", A: -1, T: 0, V: 4, N: 2})
+	return c
+}
+
 func corpus() []Case {
 	return []Case{
+		wideTopic(150), wideTopic(300),
 		// two subscriptions of one actor on one topic = two deliveries per publication; cancel one of them
 		{Ops: []Op{{K: "SP", A: 0}, {K: "SP", A: 1}, {K: "S", A: 0, T: 0}, {K: "S", A: 0, T: 0}, {K: "S", A: 1, T: 0}, {K: "P", A: 1, T: 0, V: 1},
 			{K: "U", A: 0, V: 1}, {K: "P", A: 1, T: 0, V: 2, N: 3}, {K: "U", A: 0, V: 1}, {K: "P", A: -1, T: 0, V: 5}}},
